@@ -28,4 +28,4 @@ NOT_APPLICABLE = {
 }
 
 # properties whose check has been run green on the unchanged tree (mkmanifest claims only these)
-READY = {"C01", "C02", "C04", "C05", "C06", "C07", "C08", "C09", "C10", "C11", "C12", "C13", "C14", "C15"}
+READY = {"C01", "C02", "C04", "C05", "C06", "C07", "C08", "C09", "C10", "C11", "C12", "C13", "C14", "C15", "C17", "C18", "C20"}
